@@ -302,9 +302,10 @@ class ConfusionMatrix:
             matrix[..., j, 1, 0] = (
                 np.sum(self.matrix[..., :, j], axis=-1) - matrix[..., j, 0, 0]
             )
-            matrix[..., j, 1, 1] = np.sum(self.matrix, axis=(-1, -2)) - np.sum(
-                matrix[..., j, :, :], axis=(-1, -2)
-            )
+            # Sum the entries outside row j and column j directly; forming this as a
+            # difference of totals can give a small negative number for float matrices.
+            others = np.delete(np.delete(self.matrix, j, axis=-1), j, axis=-2)
+            matrix[..., j, 1, 1] = np.sum(others, axis=(-1, -2))
         return ConfusionMatrix(matrix=matrix, binary=True)
 
     def _class_metric_as_dict(self, arr: np.ndarray, axis: int = -1) -> dict:
